@@ -461,6 +461,30 @@ pub fn record(seed: u64, tier: &str, out: &str) {
     let mut rng = Rng::new(seed ^ 0xC09);
     let mut t = TraceWriter::create(out);
     let buf = Writer::VERIF_BUF_SIZE;
+    // beyond the listed property: the integer trait constants the writer relies on
+    {
+        use rlib_num_traits::{FixedSizeInteger, Integer, MinMax, ZeroOne};
+        let bj = |v: i128| { let (neg, mag) = signed_limbs(v); json!({"neg": neg, "mag": mag}) };
+        let bu = |v: u128| json!({"neg": false, "mag": limbs(v)});
+        macro_rules! nt_signed {
+            ($t:ty, $name:expr) => {
+                t.ev(json!({"ev": "numtraits", "ty": $name, "bits": <$t>::BITS, "signed": true, "base10len": <$t as FixedSizeInteger>::BASE_10_LEN,
+                            "zero": bj(<$t as ZeroOne>::ZERO as i128), "one": bj(<$t as ZeroOne>::ONE as i128),
+                            "min": bj(<$t as MinMax>::MIN as i128), "max": bj(<$t as MinMax>::MAX as i128),
+                            "abs_min_plus_one": bj(Integer::abs(&(<$t>::MIN + 1)) as i128)}));
+            };
+        }
+        macro_rules! nt_unsigned {
+            ($t:ty, $name:expr) => {
+                t.ev(json!({"ev": "numtraits", "ty": $name, "bits": <$t>::BITS, "signed": false, "base10len": <$t as FixedSizeInteger>::BASE_10_LEN,
+                            "zero": bu(<$t as ZeroOne>::ZERO as u128), "one": bu(<$t as ZeroOne>::ONE as u128),
+                            "min": bu(<$t as MinMax>::MIN as u128), "max": bu(<$t as MinMax>::MAX as u128),
+                            "abs_min_plus_one": bu(Integer::abs(&(<$t>::MIN + 1)) as u128)}));
+            };
+        }
+        nt_signed!(i8, "i8"); nt_signed!(i16, "i16"); nt_signed!(i32, "i32"); nt_signed!(i64, "i64"); nt_signed!(i128, "i128"); nt_signed!(isize, "isize");
+        nt_unsigned!(u8, "u8"); nt_unsigned!(u16, "u16"); nt_unsigned!(u32, "u32"); nt_unsigned!(u64, "u64"); nt_unsigned!(u128, "u128"); nt_unsigned!(usize, "usize");
+    }
     // systematic decimal boundary sweep of all 12 integer types (round trip through the Reader included), in runs of
     // 400 values so that the trace specification's per-run state stays small
     {
